@@ -150,6 +150,22 @@ pub fn run(opts: &HashMap<String, String>) -> i32 {
             }
         }
     }
+    // 3b. a user-defined 256-bit type: numerals on and around 2^128 and 2^256, fast and cold
+    for num in ["340282366920938463463374607431768211455", "340282366920938463463374607431768211456", "999999999999999999999999999999999999999999",
+                "115792089237316195423570985008687907853269984665640564039457584007913129639935",
+                "115792089237316195423570985008687907853269984665640564039457584007913129639936",
+                "0000000000115792089237316195423570985008687907853269984665640564039457584007913129639935",
+                "1157920892373161954235709850086879078532699846656405640394575840079131296399350", "123456789", "12345678"] {
+        for f in ["ascii_digits", "ascii_digits_multi"] {
+            for pre_full in [true, false] {
+                let mut v: Vec<u8> = num.as_bytes().to_vec();
+                v.push(b' ');
+                v.extend_from_slice(b"12345678");
+                let pre = if pre_full { v.len() } else { 0 };
+                emit(&v, f, "u256", 0, pre, &mut emitted, &mut idx);
+            }
+        }
+    }
     // 4. sign-like and neighbouring lead bytes in front of digits: only '-' is a sign, and only for the signed scanners
     for lead in [b'+', b'-', b',', b'.', b'/', b':', b' ', 0xad, 0xab, 0x2d ^ 0x80, b'0' - 1, b'9' + 1] {
         for digits in ["", "0", "5", "15", "007", "1234567", "12345678", "123456789"] {
